@@ -368,7 +368,7 @@ def plan(tier):
                 continue
             jobs.append(Job("pipeline_xsd", {"k0": k0, "style": s, "compound": c, "unnest": u}, 600, 60, note="selector driven"))
     for ci, (s, c, u) in enumerate(combos):
-        if quick and (c, u) != (0, 0):
+        if quick and u != 0:
             continue
         jobs.append(Job("pipeline_graph", {"style": s, "compound": c, "unnest": u}, 600, 60, note="selector driven: all 64 reference graphs on three types"))
     for k0 in range(len(MNAMES)):
